@@ -1,4 +1,5 @@
 (* Extraction of the C10 model (differentiation). *)
-From SE Require Import Expr.IO C10.DiffModel.
+From SE Require Import Expr.IO C10.DiffModel C10.DiffPoly.
 Require Import ExtrOcamlBasic.
-Extraction "semodel.ml" N_of_digits Z_of_digits digits_of_N tc_lookup tc_table diff_top diff diffc occurs.
+Extraction "semodel.ml" N_of_digits Z_of_digits digits_of_N tc_lookup tc_table diff_top diff diffc occurs
+  diff_upoly diff_uratpoly diff_mpoly qnorm.
